@@ -412,8 +412,14 @@ func transTypeLfd(transTV func(TypeVar) FType, lfd LetFuncDef) LetFuncDef {
 	return LetFuncDef{Fvar: nfvar, Params: nparams, Body: nbody}
 }
 
-func resolveOneTypeVar(rsv Resolver, tv TypeVar) FType {
-	recurse := (func(_r0 TypeVar) FType { return resolveOneTypeVar(rsv, _r0) })
+func resolveOneTypeVarIn(path []string, rsv Resolver, tv TypeVar) FType {
+	frt.IfOnly(slice.Forany(func(n string) bool {
+		return frt.OpEqual(n, tv.Name)
+	}, path), (func() {
+		PanicNow("Infinite (self referential) type is inferred.")
+	}))
+	npath := slice.PushLast(tv.Name, path)
+	recurse := (func(_r0 TypeVar) FType { return resolveOneTypeVarIn(npath, rsv, _r0) })
 	ei := rsLookupEI(rsv, tv.Name)
 	rcand := ei.resType
 	switch _v15 := (rcand).(type) {
@@ -427,6 +433,10 @@ func resolveOneTypeVar(rsv Resolver, tv TypeVar) FType {
 	default:
 		return transTVFType(recurse, rcand)
 	}
+}
+
+func resolveOneTypeVar(rsv Resolver, tv TypeVar) FType {
+	return resolveOneTypeVarIn(slice.New[string](), rsv, tv)
 }
 
 func resolveType(rsv Resolver, ftp FType) FType {
